@@ -155,3 +155,57 @@ def _is_number(t):
         return True
     except ValueError:
         return t in ("None", "True", "False") or t[:1] in "'\""          # a different literal is a change of meaning, not a new idiom
+
+
+def stmt_key(st):
+    e = _Canon().visit(copy.deepcopy(st))
+    return ast.dump(e, annotate_fields=False, include_attributes=False)
+
+
+def match_stmts(ctx, rule, construct, body, specs, names=None, mod=None, node=None, sig=None, required=None, exact=False):
+    """every spec statement (source text over canonical names) occurs among `body` (statements, compared modulo the renaming `names`);
+    with exact=True the body consists of exactly the spec statements in order.  Same taxonomy as `match`: a body over the same vocabulary that
+    does not contain the statements is a violation, a body using other vocabulary is an analysis error."""
+    names = names or {}
+    got = [rename(s, names) for s in body if not (isinstance(s, ast.Expr) and isinstance(s.value, ast.Constant))]
+    want = [ast.parse(s).body[0] for s in specs]
+    gk, wk = [stmt_key(s) for s in got], [stmt_key(s) for s in want]
+    ok = (gk == wk) if exact else all(k in gk for k in wk)
+    req = required or "; ".join(specs)
+    if ok:
+        ctx.ob(rule, construct, True, found="; ".join(ast.unparse(s) for s in got)[:300], required=req, mod=mod, node=node or (body[0] if body else None))
+        return True
+    allowed = set()
+    for w in want:
+        for t in vocab(w):
+            allowed.add(t)
+            allowed |= _PARTNER.get(t, set())
+    OPS = ("Not", "USub", "Add", "Sub", "Mult", "Div", "FloorDiv", "Lt", "LtE", "Gt", "GtE", "Eq", "NotEq")      # arithmetic / comparison changes are changes of meaning
+
+    def new_vocab(g):
+        return {t for t in vocab(g) - allowed if not _is_number(t) and t not in OPS}
+    extra = set()
+    for g in got:
+        extra |= new_vocab(g)
+    if extra and not exact:
+        # statements outside the spec may legitimately use other names: only the statements that share a target / callee with a spec matter
+        heads = {head(w) for w in want}
+        extra = set()
+        for g in got:
+            if head(g) in heads:
+                extra |= new_vocab(g)
+    if extra:
+        raise AnalysisError("%s %s: statements use vocabulary outside the recognised forms %s; cannot decide" % (rule, construct, sorted(extra)[:6]))
+    ctx.ob(rule, construct, False, found="; ".join(ast.unparse(s) for s in got)[:300], required=req, mod=mod, node=node or (body[0] if body else None), sig=sig or "stmts")
+    return False
+
+
+def head(st):
+    """what a statement is about: its assignment targets or the callee of an expression statement"""
+    if isinstance(st, ast.Assign):
+        return "=" + ",".join(sorted(ast.unparse(t) for t in st.targets))
+    if isinstance(st, ast.AugAssign):
+        return "=" + ast.unparse(st.target)
+    if isinstance(st, ast.Expr) and isinstance(st.value, ast.Call):
+        return "call:" + ast.unparse(st.value.func)
+    return type(st).__name__
